@@ -22,6 +22,7 @@ RULE += ("; round 5: extra keys with arbitrary values; an amino acid mapped onto
 RULE += ("; round 7: sequences of 1001-1600 residues in the reduction laws")
 RULE += ("; round 8: values with line breaks / blanks; dict subclasses that answer through __missing__ (accepted means applied by look-up)")
 RULE += ("; round 9: two bad values whose lengths cancel; extra keys that are words over residue letters; dictionaries without any residue key")
+RULE += ("; round 10: multi-letter keys spelling exactly the missing residues")
 EXHAUSTIVE = {"quick": False, "thorough": False}
 EXHAUSTIVE_NOTE = {"quick": "12 sizes x 20 residues enumerated completely; integer sizes 0..25",
                    "thorough": "12 sizes x 20 residues enumerated completely; integer sizes 0..25"}
